@@ -74,6 +74,7 @@ func (p c19) Run(c *core.Ctx, idx int) {
 	o.Sub = idx%4 == 3 // some top-level nodes written in a submodule: they have the module's namespace
 	o.Presence = true
 	o.ListsOfAll = true
+	o.NumericEnumNames = true
 	o.MaxDepth = 2 + r.Intn(3)
 	if idx%5 == 4 {
 		o.Types = []string{"string", "enumeration", "empty", "bits", "identityref", "binary", "boolean", "uint64", "int64", "decimal64"}
